@@ -21,7 +21,7 @@ from pypika_tortoise.dialects import MSSQLQuery, MySQLQuery, OracleQuery, Postgr
 from genobj import QUERY_CLASSES, QNAMES
 
 LEVEL = "proof"
-THEOREMS = ["C09_inline", "C09_param", "C09_subquery", "C09_setop", "C09_every_statement", "C09_recogniser_reads_printer", "C09_old_oracle_refuted",
+THEOREMS = ["C09_inline", "C09_param", "C09_subquery", "C09_setop", "C09_every_statement", "C09_every_set_operation", "C09_recogniser_reads_printer", "C09_old_oracle_refuted",
             "C09_old_sqlite_refuted", "C09_setop_offset_alone_refuted"]
 PCHECK = ("Ref.Lexer Ref.RowLimit",
           "Definition pcheck (cx : ctx) (t : term) (sql : str) (param : bool) (vals : list str) : option bool := c09_ok (dialect cx) t sql param vals.\n"
